@@ -4,6 +4,8 @@ import Pbc.Model.Check
 import Pbc.Model.Buf
 import Pbc.Model.HeapUnpack
 import Pbc.Model.Lookup
+import Pbc.Model.Gen
+import Pbc.Extract.GenFacts
 /-
   Line-protocol driver: reads the same case file as harness/pbc_harness.c, evaluates the
   Lean model (and the extracted leaves), prints one canonical line per operation.
@@ -178,6 +180,129 @@ end
 
 def commaList (l : List Nat) : String := ",".intercalate (l.map toString)
 
+
+/-! ### generator model ops: gendesc / genenum / gensvc (Pbc.Model.Gen) -/
+open Pbc.Gen in
+def dfltTok : Dflt → Bool → String
+  | .none, _ => "-"
+  | .emptyStr, _ => "E"
+  | .str s, _ => "S" ++ hexOfBytes s
+  | .bin b, _ => "B" ++ hexOfBytes b
+  | .scalar v, is32 => "V" ++ String.ofList (Nat.toDigits 16 (if is32 then v.toNat % 2 ^ 32 else v.toNat))
+
+def parseDflt (d : String) : Dflt :=
+  if d.startsWith "E" then .emptyStr
+  else if d.startsWith "S" then .str (bytesOfHex (d.drop 1).toString)
+  else if d.startsWith "B" then .bin (bytesOfHex (d.drop 1).toString)
+  else if d.startsWith "V" then .scalar (BitVec.ofNat 64 (hexNat (d.drop 1).toString))
+  else .none
+
+def optStr (s : String) : Option String := if s == "-" then none else some s
+def commaJoin (l : List String) : String := ",".intercalate l
+def rangesTxt (r : Ranges) (nonEmpty : Bool) : String :=
+  commaJoin ((r.runs.map fun (s, o) => s!"{s}:{o}") ++ (if nonEmpty then [s!"0:{r.total}"] else []))
+
+def optBools (s : String) : List (Option Bool) :=
+  (s.splitOn ",").map fun t => if t == "-" then none else some (t == "1")
+def effInitOfChain (s : String) : Bool :=
+  match optBools s with
+  | [] => true
+  | f :: chain => Pbc.Gen.effInit f chain
+def effPackOfChain (s : String) : Bool :=
+  match optBools s with
+  | [] => true
+  | f :: chain => Pbc.Gen.effPack f chain
+
+def opGenApi : PM String := do
+  let _ty ← tokNat
+  let packChain ← tok
+  let initChain ← tok
+  return s!"pack={if effPackOfChain packChain then 1 else 0} init={if effInitOfChain initChain then 1 else 0}"
+
+open Pbc.Gen in
+def opGenDesc : PM String := do
+  let _ty ← tokNat
+  let full ← tok; let short ← tok; let pkg ← tok; let cpkg ← tok
+  let syn ← tokNat; let codeSize ← tokNat; let initChain ← tok; let useOneof ← tokNat
+  let nf ← tokNat
+  let mut fs : Array PField := #[]
+  for _ in [0:nf] do
+    let name ← tok; let number ← tokNat; let pl ← tokNat; let ty ← tokNat
+    let po ← tok; let oi ← tok; let on ← tok; let sub ← tok; let d ← tok; let sab ← tokNat; let depr ← tokNat
+    fs := fs.push { name := name, number := number,
+                    plabel := (match pl with | 0 => .required | 1 => .optional | 2 => .repeated | _ => .implicit),
+                    type := typeOfCode ty,
+                    packedOpt := (if po == "-" then none else some (po == "1")),
+                    oneof := (if oi.startsWith "-" then none else some (oi.toNat!, on)),
+                    sub := (if sub.startsWith "-" then 0 else sub.toNat!),
+                    dflt := parseDflt d, stringAsBytes := sab == 1, deprecated := depr == 1 }
+  let pkgS := if pkg == "-" then "" else pkg
+  let m : PMsg := { full := full, short := short, pkg := pkgS, cpkg := optStr cpkg, fields := fs.toList,
+                    opts := { syntax3 := syn == 3, codeSize := codeSize == 1, genInit := effInitOfChain initChain, useOneofName := useOneof == 1 } }
+  let gf := genFields m
+  let names :=
+    if m.opts.codeSize then "name=(null) short=(null) cname=(null) pkg=(null)"
+    else s!"name={m.full} short={String.ofList (toCamel m.short.toList)} cname={String.ofList (fullNameToC m.full.toList m.pkg.toList (m.cpkg.map (·.toList)))} pkg={m.pkg}"
+  let ftxt := gf.map fun g =>
+    let f := g.d
+    let flags := (if f.packed then 1 else 0) + (if g.deprecated then 2 else 0) + (if f.group.isSome then 4 else 0)
+    let sub : String := if f.type == .message then toString f.sub else "-1"
+    s!"{g.emittedName.getD "(null)"}:{f.id}:{f.label.code}:{f.type.code}:{flags}:{if f.hasQ then 1 else 0}:{sub}:{dfltTok f.dflt f.type.is32}"
+  let byname := if m.opts.codeSize then gf.map (fun _ => "0") else (genByName m).map (fun x => toString x.2)
+  return s!"magic=1 {names} nf={gf.length} init={if m.opts.genInit then 1 else 0} fields={commaJoin ftxt} byname={commaJoin byname} ranges={rangesTxt (genRanges m) (!gf.isEmpty)} layout_ok=1"
+
+open Pbc.Gen in
+def opGenEnum : PM String := do
+  let _i ← tokNat
+  let full ← tok; let short ← tok; let pkg ← tok; let cpkg ← tok; let codeSize ← tokNat
+  let n ← tokNat
+  let mut vs : Array (String × Int) := #[]
+  for _ in [0:n] do
+    let nm ← tok; let v ← tokInt
+    vs := vs.push (nm, v)
+  let pkgS := if pkg == "-" then "" else pkg
+  let e : PEnum := { full := full, short := short, pkg := pkgS, cpkg := optStr cpkg, values := vs.toList, codeSize := codeSize == 1 }
+  let vals := genEnumValues e
+  let up := String.ofList (fullNameToUpper e.full.toList e.pkg.toList (e.cpkg.map (·.toList)))
+  let names :=
+    if e.codeSize then "name=(null) short=(null) cname=(null) pkg=(null)"
+    else s!"name={e.full} short={e.short} cname={String.ofList (fullNameToC e.full.toList e.pkg.toList (e.cpkg.map (·.toList)))} pkg={e.pkg}"
+  let vtxt := vals.map fun (nm, v) => if e.codeSize then s!"(null):(null):{v}" else s!"{nm}:{up}__{nm}:{v}"
+  let bn := if e.codeSize then [] else (genEnumByName e).map fun (nm, i) => s!"{String.ofList (nm.map (fun c => Char.ofNat c))}:{i}"
+  return s!"magic=1 {names} nv={vals.length} values={commaJoin vtxt} nn={bn.length} byname={commaJoin bn} ranges={rangesTxt (genEnumRanges e) (!vals.isEmpty)}"
+
+open Pbc.Gen in
+def opGenSvc : PM String := do
+  let _i ← tokNat
+  let full ← tok; let short ← tok; let pkg ← tok; let cpkg ← tok; let codeSize ← tokNat
+  let n ← tokNat
+  let mut ms : Array (String × Nat × Nat) := #[]
+  for _ in [0:n] do
+    let nm ← tok; let a ← tokNat; let b ← tokNat
+    ms := ms.push (nm, a, b)
+  let pkgS := if pkg == "-" then "" else pkg
+  let sv : PSvc := { full := full, short := short, pkg := pkgS, cpkg := optStr cpkg, methods := ms.toList, codeSize := codeSize == 1 }
+  let names :=
+    if sv.codeSize then "name=(null) short=(null) cname=(null) pkg=(null)"
+    else s!"name={sv.full} short={sv.short} cname={String.ofList (fullNameToC sv.full.toList sv.pkg.toList (sv.cpkg.map (·.toList)))} pkg={sv.pkg}"
+  let mt := sv.methods.map fun (nm, a, b) => s!"{if sv.codeSize then "(null)" else nm}:{a}:{b}"
+  let bn := if sv.codeSize then [] else (genMethodsByName sv).map (fun x => toString x.2)
+  let svc := serviceInit sv
+  -- input / closure / closure data are modelled by the distinct tokens 1, 2, 3
+  let calls := (List.range sv.methods.length).map fun k =>
+    match stub svc k 1 2 3 with
+    | some c => s!"{c.slot}:{if c.input == 1 && c.closure == 2 && c.closureData == 3 then 1 else 0}"
+    | none => "-1:0"
+  let fresh := generatedInit sv
+  let cleared := fresh.handlers.all (·.isNone) && fresh.handlers.length == sv.methods.length
+  return s!"magic=1 {names} n={sv.methods.length} methods={commaJoin mt} byname={commaJoin bn} calls={commaJoin calls} init_desc=1 init_invoke=1 cleared={if cleared then 1 else 0} destroyed={if (destroy fresh).destroyed then 1 else 0}"
+
+open Pbc.Gen in
+def opGenName : PM String := do
+  -- genname <field name>: the struct member name (keyword avoidance), keywords extracted from c_helpers.cc
+  let n ← tok
+  return "member=" ++ String.ofList (fieldName (Pbc.Extract.GenFacts.keywords.map (·.toList)) n.toList)
+
 def runOp (S : Schema) (op : String) : PM String := do
   match op with
   | "pack" =>
@@ -323,6 +448,11 @@ def runOp (S : Schema) (op : String) : PM String := do
       let key ← tokInt
       out := out ++ (match rangeLookup r key with | some i => toString i | none => "-1") ++ ","
     return out
+  | "gendesc" => opGenDesc
+  | "genapi" => opGenApi
+  | "genenum" => opGenEnum
+  | "gensvc" => opGenSvc
+  | "genname" => opGenName
   | "leaf" =>
     let fn ← tok
     let s ← get
